@@ -1,7 +1,7 @@
 """Deterministic thread scheduler at source-line granularity.
 
 Every worker thread installs a ``sys.settrace`` function that fires on each ``line`` event in files under a
-given path prefix (the kio package) and hands control to a token-passing scheduler: only the token holder runs,
+given path prefix (the kio package), and on each call of code generated for the package's classes (dataclass methods), and hands control to a token-passing scheduler: only the token holder runs,
 so the interleaving is a pure function of the schedule = list of preemptions ``(global step, target thread)``
 applied over a default run-to-completion order (thread 0, then 1, ...).
 """
@@ -76,9 +76,18 @@ class Scheduler:
                 self._yield_point(me, frame)
             return local
 
+        package = prefix.rstrip("/").rsplit("/", 1)[-1]
+
         def global_trace(frame, event, arg):
-            if event == "call" and frame.f_code.co_filename.startswith(prefix):
-                return local
+            if event == "call":
+                fn = frame.f_code.co_filename
+                if fn.startswith(prefix):
+                    return local
+                # code generated for the package's classes (dataclass __init__/__eq__/__lt__ .., compiled from "<string>"
+                # with the defining module's globals): ONE yield point per call.  C code that calls back into such a
+                # method - list.sort() comparing records, dict lookups hashing them - can be preempted there.
+                if fn.startswith("<") and str(frame.f_globals.get("__name__", "")).split(".")[0] == package:
+                    self._yield_point(me, frame)
             return None
 
         return global_trace
